@@ -274,6 +274,9 @@ func (e *Engine) Generate(prop, tier string, seed uint64, run int) *sim.Plan {
 			}
 			if r.Chance(0.2) {
 				st.M = []string{"origin", word(r)}
+				if r.Chance(0.25) {
+					st.M[1] = "" // the key is there, with nothing in it
+				}
 			}
 			if r.Chance(0.06) {
 				st.K = "invalid"
